@@ -84,7 +84,10 @@ extern "C" void harness_main()
   syms->append("main", 0x10); syms->export_symbol("main");
   FILE *out = fopen("skel", "wb");
 #if FORMAT == 7
-  write_elf(m, out, syms, "t.asm", CPU_TYPE_MSP430, 2);
+#ifndef ELFCPU
+#define ELFCPU CPU_TYPE_MSP430
+#endif
+  write_elf(m, out, syms, "t.asm", ELFCPU, 2);
 #elif FORMAT == 8
   write_macho(m, out, syms, "t.asm", CPU_TYPE_ARM64, 4);
 #else
@@ -94,8 +97,22 @@ extern "C" void harness_main()
   building = 0; nwrites = 0;
   flen = symx_file_get("skel", file, sizeof(file));
   symx_assume(flen > 16);
+#ifdef SHDR_SECTION
+  {
+    // offset and size of one section header are symbolic over their full width (32 bit in ELF32, 64 bit in ELF64)
+    int is64 = file[4] == 2;
+    uint64_t shoff = 0; for (int k = 0; k < (is64 ? 8 : 4); k++) shoff |= (uint64_t)file[(is64 ? 40 : 32) + k] << (8 * k);
+    uint32_t shentsize = file[is64 ? 58 : 46] | (file[(is64 ? 58 : 46) + 1] << 8);
+    uint32_t shnum = file[is64 ? 60 : 48] | (file[(is64 ? 60 : 48) + 1] << 8);
+    symx_assume(SHDR_SECTION < shnum);
+    long h = (long)(shoff + (uint64_t)SHDR_SECTION * shentsize);
+    if (is64) { sym32_at(h + 24, "sh_offset_lo"); sym32_at(h + 28, "sh_offset_hi"); sym32_at(h + 32, "sh_size_lo"); sym32_at(h + 36, "sh_size_hi"); }
+    else { sym32_at(h + 16, "sh_offset"); sym32_at(h + 20, "sh_size"); }
+  }
+#else
   static const int pos[] = { SYMPOS };
   for (unsigned i = 0; i < sizeof(pos) / sizeof(pos[0]); i++) { if (SYMWIDTH == 4) sym32_at(pos[i], "field"); else sym16_at(pos[i], "field"); }
+#endif
   symx_file_put("f.obj", file, flen);
   Symbols *s2 = new Symbols();
 #if FORMAT == 7
